@@ -495,6 +495,11 @@ func runC10(seed uint64, n int, outDir string, replay string) {
 				for i, b := range to {
 					emit(b, i == len(to)-1)
 				}
+				if sx, sy := qiSupplyOf(chainImage(X, index)), qiSupplyOf(ref); sx.Cmp(sy) != 0 {
+					// the unspent Qi outputs of the node that reorganised are worth something else than those of a node
+					// that only ever saw the winning branch: outputs of the abandoned branch survive, or spent ones stay spent
+					o.Violate("c01-qi-supply-differs-after-reorg", fmt.Sprintf("%s: the unspent outputs of the reorganised node are worth %s qits, those of a node that only followed the winning branch %s", what, sx, sy))
+				}
 				if d := imageDiff(chainImage(X, index), ref); len(d) > 0 {
 					if onlyIndexDuplicates(chainImage(X, index), ref) {
 						// consequence of the known C06 finding: an output listed in both the spent and the trimmed undo
@@ -578,4 +583,25 @@ func runC10(seed uint64, n int, outDir string, replay string) {
 		o.EndCase(fmt.Sprint(rc.U64()), true)
 	}
 	o.Close(nil)
+}
+
+// qiSupplyOf: the value of the unspent Qi outputs in a database image ('ut' key space; denominations valued with the
+// start-up copy of the table)
+func qiSupplyOf(image map[string]string) *big.Int {
+	t := new(big.Int)
+	for k, v := range image {
+		if len(k) != rawdb.UtxoKeyLength || !bytes.HasPrefix([]byte(k), rawdb.UtxoPrefix) {
+			continue
+		}
+		p := new(types.ProtoTxOut)
+		if proto.Unmarshal([]byte(v), p) != nil {
+			continue
+		}
+		u := new(types.UtxoEntry)
+		if u.ProtoDecode(p) != nil {
+			continue
+		}
+		t.Add(t, utDenom(u.Denomination))
+	}
+	return t
 }
